@@ -472,6 +472,11 @@ def g_uri(rng):
         query = rng.choice(['', '', '?q=1', '?a=%20&b', '?%', '?#'])
         frag = rng.choice(['', '', '#f', '#', '#a#b', '##', '#%41', '#%4g'])
         return scheme + auth + path + query + frag
+    if rng.random() < 0.25:    # the path as urlparse sees it starts (or nearly starts) with ':' — the library's own path check
+        head = rng.choice([':', ':', '::', ':a', ':/', ':/a', '://x', ':1', ':a:b', ' :a', ':a ', '\t:'])
+        pre = rng.choice(['', '', '', 'http:', 'x:', 'a+b:', '1:', '+:', '/', './', '//h', '//h/', '//', 'a'])
+        tail = rng.choice(['', '', 'b', '/c', '?q', '#f', '?q#f', '%41', '#'])
+        return pre + head + tail
     return rng.choice(['http://example.com/a?b=c#d', 'urn:x:y', '', 'a b', '%20', '%zz', 'http://[::1]/', 'http://[::1',
                        '../x', '#f', 'mailto:a@b', 'http://a/b c', ':', '1:', 'http://é.example/', 'a\\b', '%',
                        'file:///c|/x', '\\\\host\\share', '%41%', '%4', 'a%٤١', '%\uff14\uff11', '#a#'])
@@ -802,15 +807,11 @@ def lexical_cases(run: Run, impl: Impl, cases: list) -> None:
                 mm, _, sp, _ = uri_ans
                 got_u = ('ok:' + cps(str(val))) if kind == 'ok' else val
                 st.count('lex:anyURI-model:' + ('ok' if kind == 'ok' else str(val)))
-                # interim finding F10y (repair on fix-c10-5): `\\d` in Patterns.wrong_escape also takes decimal digits of other
-                # scripts; trigger = some '%' is followed by two characters of [a-fA-F\\d] that are not both ASCII hex digits
-                import re as _re
-                tags_y = ['F10y'] if _re.search(r'%(?=[a-fA-F\d]{2})(?![a-fA-F0-9]{2})', xsd_collapse(s)) else []
-                want_u = 'ok:' + cps(xsd_collapse(s)) + ':hash=1:pct=1'
+                want_u = 'ok:' + cps(xsd_collapse(s)) + ':hash=1:pct=1:colon=1'    # colon: RFC 3986 fact checked by the correspondence only
                 if kind == 'ok' and (sp != want_u or got_u != sp.split(':hash=')[0]):
-                    # what an accepted value must look like (EPV.C10.anyURI_accepted)
+                    # what an accepted value must look like (EPV.C10.anyURI_accepted; the leading-colon fact rests on urlparse's path and is observed, not proved)
                     run.disagree(Disagreement(case, impl=got_u, model=mm, spec=sp, what='anyURI-accepted-shape',
-                                              site='uri.py AnyURI.validate', tags=tags_y))
+                                              site='uri.py AnyURI.validate'))
                 elif got_u != mm:
                     run.disagree(Disagreement(case, impl=got_u, model=mm, what='anyURI-model', site='uri.py AnyURI.validate'))
             if t in STR_TYPES:
@@ -1008,15 +1009,6 @@ def canon_str(val):
     if isinstance(val, (float, Decimal)):
         return None
     return str(val)
-
-
-def bce_5digit_year(t: str, s: str) -> bool:
-    """trigger of F10y: a year-bearing XSD 1.1 date type and a lexical year <= -9999"""
-    import re
-    if t not in ('date', 'dateTime', 'dateTimeStamp', 'gYear', 'gYearMonth'):
-        return False
-    m = re.match(r'^\s*-([0-9]+)', s)
-    return m is not None and int(m.group(1)) >= 9999
 
 
 DATE_FAMILY = ['date', 'dateTime', 'dateTimeStamp', 'time', 'gYear', 'gYearMonth', 'gMonth', 'gMonthDay', 'gDay',
